@@ -218,3 +218,50 @@ Proof.
 Qed.
 
 End RtEffect.
+
+(* ------------------------------------------------------------------ synchronous mode: nothing is ever buffered (untyped) *)
+Definition buffers_empty (c : config) : Prop :=
+  forall k st, chans c !! k = Some st -> ch_buf st = None.
+
+Lemma apply_effect_buffers c self p e : buffers_empty c -> buffers_empty (apply_effect c self p e).
+Proof.
+  intros Hb k st. unfold apply_effect.
+  destruct (add_spawns self _ (e_spawn e) (procs c)) as [pm next1].
+  cbn [chans].
+  fold (new_chans (chans c) (e_newch e)). fold (close_chans (new_chans (chans c) (e_newch e)) (e_close e)).
+  intros H. apply close_chans_lookup in H. destruct H as [st0 [H Hb0]]. rewrite Hb0.
+  apply new_chans_lookup in H. destruct H as [[_ ->]|H]; [reflexivity|eauto].
+Qed.
+
+Lemma put_none_buffers c k st : buffers_empty c -> buffers_empty (put_msg c k st None).
+Proof.
+  intros Hb k' st'. unfold put_msg. cbn [chans]. intros H.
+  apply lookup_insert_Some in H. destruct H as [[_ <-]|[_ H]]; [reflexivity|eauto].
+Qed.
+
+Lemma del_proc_buffers c s : buffers_empty c -> buffers_empty (del_proc c s).
+Proof. intros Hb k st. unfold del_proc. cbn [chans]. apply Hb. Qed.
+
+Lemma eff_step_buffers c self p r c' : buffers_empty c -> eff_step c self p r = SStep c' -> buffers_empty c'.
+Proof. intros Hb. unfold eff_step. destruct r; [|discriminate]. intros [= <-]. apply apply_effect_buffers; auto. Qed.
+
+Lemma sync_step_buffers D F c ch c' : buffers_empty c -> step Sync D F c ch = SStep c' -> buffers_empty c'.
+Proof.
+  intros Hb. destruct ch as [self|s r|f t]; simpl.
+  - destruct (procs c !! self) as [p|]; [|discriminate].
+    destruct (action_of Sync D p); try discriminate.
+    + apply eff_step_buffers; auto.
+    + apply eff_step_buffers; auto.
+    + destruct (chans c !! c0) as [st|]; [|discriminate]. destruct (ch_closed st); [discriminate|].
+      destruct (ch_buf st); discriminate.
+    + destruct (chans c !! c0) as [st|]; [|discriminate]. destruct (ch_buf st).
+      * apply eff_step_buffers. apply put_none_buffers; auto.
+      * destruct (ch_closed st); [|discriminate]. apply eff_step_buffers; auto.
+  - destruct (bool_decide (s = r)); [discriminate|].
+    destruct (procs c !! s) as [ps|]; [|discriminate]. destruct (procs c !! r) as [pr|]; [|discriminate].
+    destruct (action_of Sync D ps); try discriminate. destruct (action_of Sync D pr); try discriminate.
+    destruct (bool_decide (c0 = c1)); [|discriminate].
+    destruct (chans c !! c0) as [st|]; [|discriminate]. destruct (ch_closed st); [discriminate|].
+    apply eff_step_buffers. apply del_proc_buffers; auto.
+  - discriminate.
+Qed.
